@@ -474,3 +474,181 @@ func DumpE13(p *Prog) {
 		fmt.Printf("%-10s %s %s  %s  %s\n", o.Status, o.Rule, o.Key, o.Pos, o.Msg)
 	}
 }
+
+// waitersReread (E13c): the other half of the wake-up idiom.  A call that parks in a loop on a
+// channel it took from a replaceable field, together with an arm whose only effect is to go
+// round the loop again (the wake-up channel: `case <-sizeQ: continue`), must take the queue
+// from the field again after every wake-up: the load of the field lies inside the loop.  A
+// snapshot taken before the loop is the channel the setter has just discarded.
+func waitersReread(p *Prog, r *Report, R string, inPkg func(rel string) bool) {
+	r.Describe(R, "a wait loop that is woken through a wake-up channel (an arm that only goes round the loop again) takes every replaceable channel it waits on from its field inside the loop, after the wake-up: a snapshot taken before the loop is the queue the option setter has just discarded, and the call waits on it for ever")
+	// channel fields that are replaced somewhere outside construction
+	replaced := map[*types.Var]bool{}
+	for _, fn := range p.Funcs {
+		EachInstr(fn, func(in ssa.Instruction) {
+			st, ok := in.(*ssa.Store)
+			if !ok {
+				return
+			}
+			fa, ok := st.Addr.(*ssa.FieldAddr)
+			if !ok {
+				return
+			}
+			fv, _ := fieldAddrVar(fa)
+			if fv == nil {
+				return
+			}
+			if _, isChan := fv.Type().Underlying().(*types.Chan); !isChan {
+				return
+			}
+			if freshBase(fa.X, 0) || p.freshParamBase(fn, fa.X) {
+				return
+			}
+			replaced[fv] = true
+		})
+	}
+	n := 0
+	for _, fn := range p.Funcs {
+		rel, _ := p.FuncRel(fn)
+		if !inPkg(rel) {
+			continue
+		}
+		EachInstr(fn, func(in ssa.Instruction) {
+			sel, ok := in.(*ssa.Select)
+			if !ok || !sel.Blocking {
+				return
+			}
+			_, body := loopBody(in.Block())
+			if body == nil {
+				return
+			}
+			// is there a wake-up arm: a receive arm on a replaced field (sizeQ is itself replaced)
+			// whose channel is loaded inside the loop?  Then this is a re-reading waiter.
+			hasWake := false
+			for _, st := range sel.States {
+				if st.Dir != types.RecvOnly {
+					continue
+				}
+				fv, _, _ := loadedField(chanRoot(st.Chan))
+				if fv != nil && replaced[fv] && strings.Contains(strings.ToLower(fv.Name()), "size") {
+					hasWake = true
+				}
+			}
+			if !hasWake {
+				return
+			}
+			n++
+			for _, st := range sel.States {
+				fv, owner, okHow, where := rereadInLoop(st.Chan, body)
+				if fv == nil || !replaced[fv] {
+					continue
+				}
+				key := p.FuncName(fn) + "/" + fv.Name()
+				r.Check(okHow, R, key, p.InstrPos(in), "taken from the field inside the loop on every way round it", "the wait loop is woken through a wake-up channel but, on a way round the loop, still waits on "+fieldKey(fv, owner)+" as it was read at "+p.InstrPos(where)+", outside the loop: after the queue is replaced the call goes on waiting on the discarded channel and never sees what is sent to the new one")
+			}
+		})
+	}
+	r.Count("e13c.rereading_waiters."+R, n)
+}
+
+// rereadInLoop: the channel value v waited on in a loop with blocks body is a load of field fv
+// taken inside the loop, or a loop-carried variable that every way round the loop refreshes
+// with such a load.  where = the load outside the loop that can still be waited on.
+func rereadInLoop(v ssa.Value, body map[*ssa.BasicBlock]bool) (*types.Var, *types.Named, bool, ssa.Instruction) {
+	for i := 0; i < 3; i++ {
+		if ct, ok := v.(*ssa.ChangeType); ok {
+			v = ct.X
+			continue
+		}
+		if u, ok := v.(*ssa.UnOp); ok && u.Op == token.MUL {
+			if rv := reachingStore(u); rv != nil {
+				v = rv
+				continue
+			}
+		}
+		break
+	}
+	if fv, owner, _ := loadedField(v); fv != nil {
+		li := v.(ssa.Instruction)
+		return fv, owner, body[li.Block()], li
+	}
+	ph, ok := v.(*ssa.Phi)
+	if !ok {
+		return nil, nil, true, nil
+	}
+	var fv *types.Var
+	var owner *types.Named
+	okAll := true
+	var where ssa.Instruction
+	for i, e := range ph.Edges {
+		pred := ph.Block().Preds[i]
+		if ct, ok := e.(*ssa.ChangeType); ok {
+			e = ct.X
+		}
+		f2, o2, _ := loadedField(e)
+		if f2 != nil {
+			fv, owner = f2, o2
+		}
+		if !body[pred] {
+			if f2 != nil && where == nil {
+				where = e.(ssa.Instruction)
+			}
+			continue // the value the loop is entered with
+		}
+		// a way round the loop: must carry a load made inside the loop
+		if f2 == nil {
+			if e == ssa.Value(ph) {
+				okAll = false // unchanged round the loop
+			} else if p2, isPhi := e.(*ssa.Phi); isPhi {
+				// a merge inside the loop (the arms that go round): each of its sources
+				for _, e2 := range p2.Edges {
+					if f3, _, _ := loadedField(e2); f3 != nil {
+						if li := e2.(ssa.Instruction); !body[li.Block()] {
+							okAll = false
+						}
+					} else if e2 == ssa.Value(ph) {
+						okAll = false
+					}
+				}
+			}
+			continue
+		}
+		if li := e.(ssa.Instruction); !body[li.Block()] {
+			okAll = false
+		}
+	}
+	if fv == nil {
+		return nil, nil, true, nil
+	}
+	if where == nil {
+		where = ph
+	}
+	return fv, owner, okAll, where
+}
+
+// chanRoot: the load behind a channel value that went through merges of the same load or a
+// local cell.
+func chanRoot(v ssa.Value) ssa.Value {
+	for i := 0; i < 4; i++ {
+		switch x := v.(type) {
+		case *ssa.ChangeType:
+			v = x.X
+			continue
+		case *ssa.UnOp:
+			if x.Op == token.MUL {
+				if rv := reachingStore(x); rv != nil {
+					v = rv
+					continue
+				}
+			}
+		case *ssa.Phi:
+			// a loop-carried snapshot: entry value and refreshed value; the entry edge decides
+			if len(x.Edges) > 0 {
+				v = x.Edges[0]
+				continue
+			}
+		}
+		break
+	}
+	return v
+}
